@@ -114,3 +114,49 @@ def mean_functions(h, spec, n, d):
     J = h.jacobian(lambda t: np.asarray(M.build_mean(t)).ravel(), th)
     for j in range(p):
         h.eq(f"dmean/dtheta[{j}]", np.asarray(grads[j]).ravel(), J[:, j], tol=2e-5)
+    # a second data set on the same object, other hyper-parameters, then the first data set again
+    dt = object if h.sym else float
+    X2 = h.real("x2", (n, d))
+    th2 = h.real("th2", p)
+    M.pass_spatial_data(X2)
+    mv2, grads2 = M.mean_and_gradients(th2)
+    h.eq("second data set: value", mv2, np.array([gc.ref_mean(h, spec, X2, X2[i], th2) for i in range(n)], dtype=dt))
+    J2 = h.jacobian(lambda t: np.array([gc.ref_mean(h, spec, X2, X2[i], t) for i in range(n)], dtype=dt), th2)
+    for j in range(p):
+        h.eq(f"second data set: dmean/dtheta[{j}]", np.asarray(grads2[j]).ravel(), J2[:, j], tol=2e-5)
+    M.pass_spatial_data(X)
+    h.eq("first data set again: build_mean", M.build_mean(th), np.array([gc.ref_mean(h, spec, X, X[i], th) for i in range(n)], dtype=dt))
+
+
+@unit("C10", quick=[dict(key=k, n=2, d=1) for k in ("SE", "RQ", "SE+WN", "CP2")] + [dict(key="SE", n=2, d=2)], thorough=[dict(key=k, n=2, d=1) for k in ("CP3", "HN", "SE+RQ")], cost=4)
+def repeated_calls_depend_only_on_the_current_hyperparameters(h, key, n, d):
+    """a call sequence on one kernel object: matrix and gradients at theta, the caller overwrites the same array in place,
+    matrix / gradients / cross-covariance again, then a second data set is passed and the first one again.  Every result
+    must be the textbook value for the hyper-parameters and the data current at the time of the call, and the caller's
+    arrays keep the values the caller wrote"""
+    cv, spec, K, X, th = _setup(h, key, n, d)
+    dt = object if h.sym else float
+    X0 = np.array(X, dtype=dt).copy()
+    t = np.array(th, dtype=dt)
+    K.build_covariance(t)
+    K.covariance_and_gradients(t)
+    new = gc.theta_for(h, spec, n, d, name="th_new")
+    for k in range(len(t)):
+        t[k] = new[k]
+    h.eq("after overwriting theta in place: build_covariance", K.build_covariance(t), gc.ref_call(h, spec, X, X, new, same_points=True))
+    Kv, grads = K.covariance_and_gradients(t)
+    h.eq("after overwriting theta in place: value part of covariance_and_gradients", Kv, gc.ref_call(h, spec, X, X, new, same_points=True))
+    # (the matrix itself was just pinned to the textbook value; its derivative is taken through the same entry point)
+    J = h.jacobian(lambda q: np.asarray(K.build_covariance(q)).ravel(), np.array(new, dtype=dt))
+    for j in range(len(t)):
+        h.eq(f"after overwriting theta in place: dK/dtheta[{j}]", np.asarray(grads[j]).ravel(), J[:, j], tol=2e-5)
+    h.eq("caller's hyper-parameter array holds what the caller wrote", t, np.array(new, dtype=dt))
+    if "HN" not in key:
+        U = h.real("u", (1, d))
+        h.eq("cross-covariance with the current hyper-parameters", K(U, X, t), gc.ref_call(h, spec, U, X, new))
+        X2 = h.real("x2", (n, d))
+        K.pass_spatial_data(X2)
+        h.eq("second data set: build_covariance", K.build_covariance(t), gc.ref_call(h, spec, X2, X2, new, same_points=True))
+        K.pass_spatial_data(X)
+        h.eq("first data set again: build_covariance", K.build_covariance(t), gc.ref_call(h, spec, X, X, new, same_points=True))
+        h.eq("caller's data array unchanged", X, X0)
